@@ -66,21 +66,10 @@ def gen(rng, i, tier):
     if rng.random() < 0.25:
         # micro / nano / pico-power systems: the SI formatting and the colour scale must work there too
         scale = 10 ** rng.uniform(-9, -3)
-        for c in spec["comps"]:
-            a = c["args"]
-            for k_ in ("pwr", "pwrs", "ii", "iis", "iq"):
-                if k_ in a and not isinstance(a[k_], dict):
-                    a[k_] = G.sig(a[k_] * scale)
-            if c["kind"] == "RLoad":
-                a["rs"] = G.sig(a["rs"] / scale)
-            if "ig" in a:
-                a["ig"] = G.sig(1e-3 * scale)
-            if isinstance(a.get("eff"), dict):
-                a["eff"] = 0.9
-            if isinstance(a.get("vdrop"), dict):
-                a["vdrop"] = 0.1
-            if c.get("phase") and isinstance(c["phase"], dict):
-                c["phase"] = {p_: (G.sig(v * scale) if c["kind"] != "RLoad" else G.sig(v / scale)) for p_, v in c["phase"].items()}
+        spec = G.scale_currents(spec, scale)
+    elif rng.random() < 0.1:
+        scale = 10 ** rng.uniform(2, 5)
+        spec = G.scale_currents(spec, scale)
     if hostile:
         k = rng.randrange(len(spec["comps"]))
         old = spec["comps"][k]["name"]
